@@ -346,8 +346,9 @@ def mirror_calls(F, body):
             out.append(bb)
             continue
         cb = F.body(p)
-        if cb is not None and cb.krate == 'kira' and p.endswith('update_shared_playback_state'):
-            if calls_to(cb, 'Shared::set_state'):
+        if cb is not None and cb.krate == 'kira' and cb is not body and cb.n <= 12:
+            # a small same-crate helper that publishes the state (whatever it is called)
+            if calls_to(cb, 'Shared::set_state') and calls_to(cb, PSM + '::playback_state'):
                 out.append(bb)
     return out
 
@@ -388,24 +389,37 @@ def mirror_rule(F, R, owner_prefix, rule='B.SM.mirror'):
 
 
 def silent_exit(F, R, body, start_bb, rule, key, allowed_extra=(), what='non-advancing state'):
-    """From start_bb: every path returns, passing out.fill(Frame::ZERO), calling nothing but fill (+allowed)
-    and storing to no field of self."""
+    """From start_bb: every path returns after zero-filling the output — `out.fill(Frame::ZERO)` or an explicit loop over
+    `out` that stores Frame::ZERO into every element — calling nothing else (+allowed) and storing to no field of self."""
+    from ..paths import describe_rv
     reach = body.reachable([start_bb])
     fills = [bb for bb in reach if (callee_path(body.blocks[bb]['term']) or '').endswith('core::slice::<impl [T]>::fill')
              and body.blocks[bb]['term']['k'] == 'call']
     ok = True
     why = ''
-    if not must_pass(body, [start_bb], returns(body), fills):
+    # explicit zeroing loops: for frame in out.iter_mut() { *frame = Frame::ZERO }
+    zero_loops = []
+    from .c02 import iter_source
+    for l in body.loops():
+        if l['header'] in reach:
+            src = iter_source(body, l)
+            stores = [s for x in l['blocks'] for s in body.blocks[x]['stmts'] if s['k'] == 'assign' and s['lhs']['p']]
+            if 'out' in src and stores and all(s['lhs']['p'][0][0] == 'deref' and describe_rv(body, s['rv']) == 'const frame::Frame::ZERO' for s in stores):
+                zero_loops.append(l)
+    passing = fills + [l['header'] for l in zero_loops]
+    if not passing or not must_pass(body, [start_bb], returns(body), passing):
         ok = False
-        why = 'a path from the %s branch reaches return without out.fill(Frame::ZERO)' % what
+        why = 'a path from the %s branch reaches return without zero-filling the output' % what
     for bb in fills:
         t = body.blocks[bb]['term']
         d = describe(body, t['args'][1]) if len(t['args']) > 1 else '?'
         if 'frame::Frame::ZERO' not in d:
             ok = False
             why = 'the %s branch fills the output with %s, not Frame::ZERO' % (what, d)
+    plumbing = ('core::slice::<impl [T]>::fill', 'core::slice::<impl [T]>::iter_mut', 'std::iter::IntoIterator>::into_iter',
+                "<std::slice::IterMut<'a, T> as std::iter::Iterator>::next")
     for bb, p in calls_in(body, reach):
-        if p.endswith('core::slice::<impl [T]>::fill'):
+        if p.endswith(plumbing):
             continue
         if any(p.endswith(a) for a in allowed_extra):
             continue
@@ -415,11 +429,11 @@ def silent_exit(F, R, body, start_bb, rule, key, allowed_extra=(), what='non-adv
     if st:
         ok = False
         why = 'the %s branch writes %s' % (what, st[0][3])
-    # no loop: the branch must not re-enter the per-frame loop
+    zl_blocks = set(x for l in zero_loops for x in l['blocks'])
     for bb in reach:
-        if body.in_loop(bb):
+        if body.in_loop(bb) and bb not in zl_blocks:
             ok = False
-            why = 'the %s branch enters a loop' % what
+            why = 'the %s branch enters a loop that is not a zero-fill of the output' % what
             break
     R.check(ok, rule, key, '%s: %s' % (body.path, why), detail={'fn': body.path, 'branch': what, 'blocks': len(reach)},
             where=body.where(start_bb))
